@@ -22,7 +22,7 @@ FLOORS = {'quick': {'span': 500, 'basis': 500, 'basis_one': 1000, 'ders': 500, '
                     'normalize': 50, 'check_reject': 50, 'hook:find_span': 50, 'hook:basis_function': 50},
           'thorough': {'span': 5000, 'basis': 5000, 'basis_one': 10000, 'ders': 5000, 'generate': 100,
                        'normalize': 500, 'check_reject': 500}}
-MANDATORY_TAGS = ['kv:unclamped', 'kv:endrep', 'kv:random', 'kv:range', 'u:end', 'u:start', 'u:knot_full', 'deg7', 'deg1']
+MANDATORY_TAGS = ['generate:count<=degree', 'kv:unclamped', 'kv:endrep', 'kv:random', 'kv:range', 'u:end', 'u:start', 'u:knot_full', 'deg7', 'deg1']
 
 _CTX = [None]
 
@@ -155,7 +155,7 @@ def install_basis_hooks(ctx):
         if len(a) < 5:
             return False
         p, U, span, u, order = a[:5]
-        if not isinstance(p, int) or not kv_ok(p, U) or not u_ok(p, U, u) or order > p or order < 0:
+        if not isinstance(p, int) or not kv_ok(p, U) or not u_ok(p, U, u) or order < 0:
             return False
         if span != expected_span(p, U, u):
             return False
@@ -192,7 +192,7 @@ def gen_basis_case(rng, p=None, cls=None):
     U = G.knot_vector(rng, p, n, kcls, lohi, fine=fine)
     params = G.param_classes(rng, p, U, nrand=4)
     return {'kind': 'basis', 'p': p, 'n': n, 'kv': U, 'cls': cls, 'params': [[t, u] for t, u in params],
-            'order': rng.randint(0, p)}
+            'order': rng.randint(0, p) if rng.random() < 0.7 else rng.randint(p + 1, p + 3)}
 
 
 def exhaustive_patterns():
@@ -232,6 +232,11 @@ def gen(rng, tier, shard, nshards):
     for i, (p, n, c) in enumerate(pairs):
         if i % nshards == shard:
             yield {'kind': 'generate', 'p': p, 'n': n, 'clamped': c}
+    # fewer control points than degree + 1: no clamped vector of the documented length exists
+    if shard == 0:
+        for p in range(1, 8):
+            for n in range(1, p + 1):
+                yield {'kind': 'generate-few', 'p': p, 'n': n}
     for i in range(nb):
         yield gen_basis_case(rng)
         if i % 3 == 0:
@@ -264,6 +269,8 @@ def check(case, ctx):
     kind = case['kind']
     if kind == 'basis':
         return check_basis(case, ctx)
+    if kind == 'generate-few':
+        return check_generate_few(case, ctx)
     if kind == 'generate':
         return check_generate(case, ctx)
     if kind == 'normalize':
@@ -324,7 +331,7 @@ def check_basis(case, ctx):
                         okA = False
             ctx.check(okA, 'basis/basis_function_all', 'basis_function_all(p=%d, span=%d, u=%r) disagrees with '
                       'Cox-de Boor for some degree' % (p, span, u), what='basis_all', kv=U)
-            # derivatives, order <= p (book precondition at helper level)
+            # derivatives of any order (orders above the degree are identically zero)
             order = case['order']
             D = helpers.basis_function_ders(p, U, span, u, order)
             judge_ders(ctx, 'basis_function_ders', p, U, span, u, order, D)
@@ -332,9 +339,10 @@ def check_basis(case, ctx):
                       'row 0 of basis_function_ders differs from basis_function', what='ders_row0')
             exd = ref.basis_ders(p, Uf, span, F(u), order)
             interior_knot = cnt.get(u, 0) > 0 and not at_end and u != U[p]
-            # single-function derivative variant (A2.5): half-open supports by construction, so the closed domain end
-            # is outside what it defines (it returns zeros there, as the book's algorithm does) - not judged there
-            for j in range(n if not at_end else 0):
+            # single-function derivative variant (A2.5)
+            # at the end of a clamped knot vector the last span is closed (as in the span search, basis_function and basis_function_one);
+            # at the end of an unclamped domain the half-open rule selects the next span, whose polynomials differ in the higher derivatives
+            for j in range(n if (not at_end or u == U[-1]) else 0):
                 g = helpers.basis_function_ders_one(p, U, j, u, order)
                 e = exd.get(j, [F(0)] * (order + 1))
                 tol = [1e-9 * max(1.0, max(abs(float(exd[i][k])) for i in exd)) for k in range(order + 1)]
@@ -363,6 +371,23 @@ def check_basis(case, ctx):
         ctx.check(len(dl) == len(us) and all(d == helpers.basis_function_ders(p, U, s, u, case['order'])
                                              for d, s, u in zip(dl, spans_l, us)),
                   'ders/basis_functions_ders', 'basis_functions_ders differs from basis_function_ders', what='wrappers')
+
+
+def check_generate_few(case, ctx):
+    from geomdl import knotvector
+    p, n = case['p'], case['n']
+    ctx.nontriv(True)
+    ctx.tag('generate:count<=degree')
+    try:
+        U = knotvector.generate(p, n)
+    except (ValueError, Exception) as e:   # any explicit refusal
+        if type(e).__name__ in ('ValueError', 'GeomdlException'):
+            ctx.ok('generate')
+            return
+        raise
+    ok = len(U) == n + p + 1 and knotvector.check(p, U, n) and len(set(U[:p + 1])) == 1 and len(set(U[-(p + 1):])) == 1
+    ctx.check(ok, 'generate/too-few-ctrlpts', 'knotvector.generate(%d, %d) neither refuses (a clamped vector needs degree + 1 control points) nor '
+              'returns a vector of length %d with end multiplicities %d that passes check(): %r' % (p, n, n + p + 1, p + 1, U), what='generate')
 
 
 def check_generate(case, ctx):
